@@ -337,6 +337,16 @@ pub fn check_case(label: &str, module: Option<&Module>, text: &str) -> Vec<Failu
                 // a constant that is not emitted has the descriptor trait's default value
                 let default = if name.ends_with(".EXTENSIBLE") { Some("false") } else if name.ends_with(".MIN") || name.ends_with(".MAX") { Some("None") } else { None };
                 let cls = cctx.rsplit('.').next().unwrap_or("").to_string();
+                // the hidden name of an element / value constraint is no part of the property: either spelling
+                let target = if all.contains_key(&target) {
+                    target
+                } else {
+                    let alt = target.strip_suffix("ValuesConstraint").map(|b| format!("{b}_ValuesConstraint")).or_else(|| target.strip_suffix("ValueConstraint").map(|b| format!("{b}_ValueConstraint")));
+                    match alt {
+                        Some(a) if all.contains_key(&a) => a,
+                        _ => target,
+                    }
+                };
                 match all.get(&target).and_then(|c| c.get(&name)).map(|s| s.as_str()).or(if all.contains_key(&target) || default.is_some() { default } else { None }) {
                     None => out.push(mk(format!("const-missing.{name}.{cls}"), format!("{target}::{name} = {want}"), "no such constant in the expansion".into())),
                     Some(got) => {
